@@ -95,8 +95,8 @@ pub fn generate_queries(
         query_upper_bound@ != 0,     // [C18:query-bound-nonzero]
     ensures
         strictly_increasing(fv(r@)),                                             // [C01,C02,C10:indices-strictly-increasing-no-repeats]
-        forall|i: int| 0 <= i < r@.len() ==> (#[trigger] r@[i])@ < query_upper_bound@, // [C01,C02,C10:indices-in-range]
-        r@.len() <= n_samples@,                                                  // [C01,C02,C10:at-most-n-queries]
+        forall|i: int| 0 <= i < r@.len() ==> (#[trigger] r@[i])@ < query_upper_bound@, // [C01,C02,C10,C18:indices-in-range]
+        r@.len() <= n_samples@,                                                  // [C01,C02,C10,C18:at-most-n-queries]
         forall|x: nat| fv(r@).contains(x) <==> raw_queries(old(transcript).digest@, old(transcript).counter@, n_samples@, query_upper_bound@).contains(x), // [C01,C02,C10:index-set-is-the-sampled-set-deterministic]
         final(transcript).digest@ == old(transcript).digest@,                    // [C01,C02,C08:queries-do-not-absorb]
         final(transcript).counter@ == (old(transcript).counter@ + n_samples@) % P, // [C01,C02,C08:queries-consume-exactly-n-squeezes]
@@ -173,8 +173,8 @@ pub fn queries_to_points(
     stark_domains: &StarkDomains,
 ) -> (r: Result<Vec<Felt>, Error>)
     ensures
-        r.is_ok() ==> stark_domains.log_eval_domain_size@ <= 64, // [C01,C02,C10:points-only-for-domains-up-to-2^64]
-        r.is_ok() ==> r->Ok_0@.len() == queries@.len(),         // [C01,C02,C10:one-point-per-query]
+        r.is_ok() ==> stark_domains.log_eval_domain_size@ <= 64, // [C01,C02,C10,C18:points-only-for-domains-up-to-2^64]
+        r.is_ok() ==> r->Ok_0@.len() == queries@.len(),         // [C01,C02,C10,C18:one-point-per-query]
         r.is_ok() ==> forall|i: int| 0 <= i < queries@.len() && queries@[i]@ < pow2(stark_domains.log_eval_domain_size@)
             ==> (#[trigger] r->Ok_0@[i])@ == query_point(queries@[i]@, stark_domains.log_eval_domain_size@, stark_domains.eval_generator@), // [C01,C02,C10:index-i-maps-to-3*w^bitreverse(i)]
         (stark_domains.log_eval_domain_size@ <= 64 && forall|i: int| 0 <= i < queries@.len() ==> (#[trigger] queries@[i])@ < pow2(stark_domains.log_eval_domain_size@))
